@@ -146,6 +146,7 @@ func init() {
 func runC05(c *eng.Ctx) {
 	cr := &caseRunner{c: c, prop: "C05"}
 	runC05Graph(c, cr)
+	RunInitializerCycles(c, cr.next)
 	lifeSets := [][4]godi.Lifetime{
 		{godi.Singleton, godi.Singleton, godi.Singleton, godi.Singleton},
 		{godi.Scoped, godi.Scoped, godi.Scoped, godi.Scoped},
@@ -566,7 +567,7 @@ func permuteSpec(rng *rand.Rand, s *Spec) *Spec {
 
 func runC06(c *eng.Ctx) {
 	cr := &caseRunner{c: c, prop: "C06"}
-	defer func() { RunSameConstructor(c, "C06", cr.next) }()
+	defer func() { RunSameConstructor(c, "C06", cr.next); RunBuildTimeOpener(c, cr.next) }()
 	alloc := func() (int, bool) { return cr.next() }
 	graphx.RunSmallDigraphs(c, "C06", alloc)
 	graphx.RunRandomDigraphs(c, "C06", alloc, c.Pick(300, 10000))
